@@ -26,3 +26,7 @@ impl PartialOrdSpecImpl for Timestamp {
         if self.0 < other.0 { Some(Ordering::Less) } else if self.0 == other.0 { Some(Ordering::Equal) } else { Some(Ordering::Greater) }
     }
 }
+
+// shims for the caller in p2panda-net/src/addrs.rs (plain data)
+pub struct Signature { pub bytes: [u8; 64] }
+pub struct EndpointAddr { pub id: [u8; 32] }
